@@ -365,7 +365,9 @@ func (obj *LogisticRegression) GetEstimate() (VectorPdf, error) {
 
 func (obj *LogisticRegression) estimateStepSize() {
   max_squared_sum := 0.0
-  max_weight      := 1.0
+  // the Lipschitz constant of the weighted loss is bounded with the larger
+  // of the two class weights
+  max_weight      := math.Max(obj.ClassWeights[0], obj.ClassWeights[1])
   if obj.sparse {
     for _, x := range obj.x_sparse {
       r  := 0.0
@@ -382,7 +384,7 @@ func (obj *LogisticRegression) estimateStepSize() {
       }
     }
   } else {
-    for i, x := range obj.x_dense {
+    for _, x := range obj.x_dense {
       r  := 0.0
       it := x.ConstIterator()
       // skip first element
@@ -394,11 +396,6 @@ func (obj *LogisticRegression) estimateStepSize() {
       }
       if r > max_squared_sum {
         max_squared_sum = r
-        if obj.c[i] {
-          max_weight = obj.ClassWeights[1]
-        } else {
-          max_weight = obj.ClassWeights[0]
-        }
       }
     }
   }
